@@ -44,7 +44,7 @@ def _cases(draw):
         "path": st.integers(0, 10 ** 6), "change": st.sampled_from(C07.CHANGES), "w": G.scalars,
         "i": st.integers(0, 10 ** 6)})))
     return {"payload": draw(G.payloads), "seeds": [s.hex() for s in seeds], "order": order, "order2": order2,
-            "foreign": foreign, "stale": stale, "edit": edit, "reorder_only": draw(st.integers(0, 3)) == 0}
+            "foreign": foreign, "stale": stale, "edit": edit, "warn_error": draw(st.booleans()), "reorder_only": draw(st.integers(0, 3)) == 0}
 
 
 def _shares_mutable(a, b):
@@ -73,13 +73,25 @@ def _sign_all(payload, seeds, order, foreign, stale=()):
     for k, v in list(foreign) + list(stale):
         env["signatures"][k] = copy.deepcopy(v)
     for i in order:
-        r = S.sign_signable(env, C.PrivateKey.from_bytes(seeds[i]))
+        try:
+            r = S.sign_signable(env, C.PrivateKey.from_bytes(seeds[i]))
+        except Exception as e:
+            raise Violation("sign_signable raised %s on a signable envelope and a valid key: %s" % (type(e).__name__, str(e)[:100]),
+                            bucket="sign raises " + type(e).__name__)
         if r is not None:
             raise Violation("sign_signable returned %r instead of signing in place" % (r,), bucket="sign returns")
     return env
 
 
 def check_case(case):
+    import warnings
+    with warnings.catch_warnings():
+        if case.get("warn_error"):
+            warnings.simplefilter("error")      # a host application may have turned warnings into errors
+        return _check_case(case)
+
+
+def _check_case(case):
     payload = case["payload"]
     original = copy.deepcopy(payload)
     seeds = [bytes.fromhex(s) for s in case["seeds"]]
@@ -145,7 +157,7 @@ def check_case(case):
         if o != "accept":
             raise Violation("signature does not verify with its own key authorized: %s" % o, bucket="own key")
 
-    labs = ["signers=%d" % k, "foreign=%d" % len(case["foreign"]), "stale=%d" % min(1, len(case.get("stale", ())))]
+    labs = ["warnings=error" if case.get("warn_error") else "warnings=default", "signers=%d" % k, "foreign=%d" % len(case["foreign"]), "stale=%d" % min(1, len(case.get("stale", ())))]
     strict = False
     if case["edit"] is not None:
         edited = copy.deepcopy(env)
